@@ -253,6 +253,36 @@ var advColumns = []string{
 	"count(*) FROM other; DELETE FROM other --", "count(1) FROM sqlite_master --", "Count(*)", "max(id)", "id, count(*) FROM secrets --",
 }
 
+// Values built around the forms the server passes through unquoted (the count
+// aggregates in a column list, the ~ prefix in a sort list): injected SQL before
+// the form, after it, and on both sides. A recogniser that anchors only one end
+// of such a form lets the rest of the element through.
+func init() {
+	aggregates := []string{"count(*)", "count(id)", "count(*) as n", "COUNT(*)", "count(name) as c"}
+	before := []string{
+		"token FROM secrets UNION SELECT", "token FROM secrets UNION ALL SELECT", "name FROM other UNION SELECT",
+		"1 FROM secrets; DELETE FROM other; SELECT", "(SELECT token FROM secrets) ||", "x\" FROM secrets UNION SELECT", "token FROM secrets WHERE 1 >",
+	}
+	after := []string{"FROM secrets --", "FROM other; DELETE FROM other --", "|| (SELECT token FROM secrets)", "UNION SELECT token FROM secrets --"}
+	for _, a := range aggregates {
+		for _, b := range before {
+			advColumns = append(advColumns, b+" "+a)
+		}
+		for _, f := range after {
+			advColumns = append(advColumns, a+" "+f)
+		}
+		advColumns = append(advColumns, before[0]+" "+a+" "+after[0])
+	}
+	for _, name := range []string{"id", "name"} {
+		for _, b := range []string{"(SELECT token FROM secrets),", "1; DELETE FROM secrets; SELECT", "(SELECT count(*) FROM other) +"} {
+			advSort = append(advSort, b+" "+name, "~"+b+" "+name)
+		}
+		for _, f := range []string{"; DELETE FROM secrets --", "+ (SELECT count(*) FROM secrets)", "DESC, (SELECT token FROM secrets)", "COLLATE NOCASE; DROP TABLE other --"} {
+			advSort = append(advSort, name+" "+f, "~"+name+" "+f)
+		}
+	}
+}
+
 var advPaging = []string{"-1", "0", "99999999999999999999", "1e3", "0x10", "1;", "1 OFFSET 1", "", " 5", "٣", "+5", "1--", "1; DROP TABLE other", "5 UNION SELECT * FROM secrets", "-0", "007", "2147483648"}
 
 var advTables = []string{
@@ -707,6 +737,32 @@ func fixedCases() []Case {
 				{Kind: "delete", Table: "items"},
 			}},
 		)
+	}
+	// Every adversarial column and sort value once on each read path (plain,
+	// abstract, transaction select and readrows), so that the quick tier does
+	// not depend on the random part drawing a particular value on a particular
+	// path. Four requests per case keep the number of cases small.
+	var sweep []Op
+	for _, c := range advColumns {
+		sweep = append(sweep,
+			Op{Kind: "read", Table: "items", Abstract: true, Columns: []string{c}},
+			Op{Kind: "read", Table: "items", Columns: []string{c}},
+			Op{Kind: "tx", Tasks: []Task{{Op: "select", Table: "items", Columns: []string{c}}}},
+			Op{Kind: "tx", Tasks: []Task{{Op: "readrows", Table: "items", Columns: []string{c}}}},
+		)
+	}
+	for _, c := range advSort {
+		sweep = append(sweep,
+			Op{Kind: "read", Table: "items", Abstract: true, Sort: []string{c}},
+			Op{Kind: "read", Table: "items", Sort: []string{c}},
+		)
+	}
+	for i := 0; i < len(sweep); i += 4 {
+		j := i + 4
+		if j > len(sweep) {
+			j = len(sweep)
+		}
+		out = append(out, Case{RowIDs: (i/4)%2 == 1, Rows: rows, Ops: sweep[i:j]})
 	}
 	return out
 }
